@@ -157,6 +157,16 @@ func genC07(r *Rng, tier string, emit func(Case)) {
 		sl = 3
 	}
 	recs(nil, sl)
+	// bech32.Encode: every byte value as a data symbol, alone and at the first / middle / last position of valid
+	// 5-bit data (the boundary 31 | 32 of the alphabet guard, and values whose low five bits are a valid symbol)
+	for v := 0; v < 256; v++ {
+		e("bechenc", "symsweep", hx([]byte("a")), hx([]byte{byte(v)}))
+		for _, pos := range []int{0, 3, 6} {
+			d := []byte{1, 2, 3, 4, 5, 6, 7}
+			d[pos] = byte(v)
+			e("bechenc", "symsweep", hx([]byte("bc")), hx(d))
+		}
+	}
 	// --- random structured
 	for i := 0; i < n; i++ {
 		ln := r.Pick(0, 1, 2, 3, 4, 5, 8, 16, 20, 21, 25, 32, 33, 37, 38, 64, 78, 82, 100, 255, 256, 512)
@@ -254,6 +264,22 @@ func genC07(r *Rng, tier string, emit func(Case)) {
 		s0, err := bech32.Encode(string(hrp), append([]byte{}, data...))
 		if err == nil {
 			e("bechdec", "valid", hs(s0))
+			// every single bit of the six checksum symbols flipped (quick: one symbol per case, all five bits)
+			if len(s0) >= 6 {
+				const cs = "qpzry9x8gf2tvdw0s3jn54khce6mua7l"
+				for k := 0; k < 6; k++ {
+					if tier != "thorough" && k != i%6 {
+						continue
+					}
+					pos := len(s0) - 6 + k
+					v := strings.IndexByte(cs, s0[pos])
+					for b := 0; b < 5 && v >= 0; b++ {
+						t := []byte(s0)
+						t[pos] = cs[v^(1<<uint(b))]
+						e("bechdec", "ckbit", hs(string(t)))
+					}
+				}
+			}
 			e("bechdec", "upper", hs(strings.ToUpper(s0)))
 			if r.Intn(4) == 0 {
 				e("bechdec", "utf8", hs(utf8Variant(r, s0)))
@@ -333,6 +359,11 @@ func genC07(r *Rng, tier string, emit func(Case)) {
 			e("pure", "bechenc", "bechenc", itoa(spare), hx(data), hx(hrp))
 		case 1:
 			e("pure", "cb", "cb", itoa(spare), hx(d8), "8", "5", "1")
+			// the widening direction and arbitrary widths too (an in-place conversion is tempting when the output
+			// is shorter than the input)
+			e("pure", "cb", "cb", itoa(spare), hx(d5), "5", "8", "0")
+			e("pure", "cb", "cb", itoa(spare), hx(d5), "5", "8", "1")
+			e("pure", "cb", "cb", itoa(spare), hx(d), itoa(from), itoa(to), "1")
 		case 2:
 			e("pure", "b58enc", "b58enc", itoa(spare), hx(b))
 		case 3:
